@@ -72,12 +72,15 @@ def mutate(rng, lines, nedits=None):
     return out
 
 
-def make_texts(rng, hist, nw, maxlen):
-    """one text (list of lines) per content id of hist; the current content has exactly nw lines;
-    different ids get different texts, successive versions are related by small edits"""
-    cur = hist[-1]
+def make_texts(rng, hist, nw, maxlen, forced=None):
+    """one text (list of lines) per content id of hist; the current content (last of hist) has exactly
+    nw lines, ids in `forced` have the given number of lines; different ids get different texts,
+    successive versions are related by small edits"""
+    forced = dict(forced or {})
+    if nw is not None:
+        forced[hist[-1]] = nw
     texts = {}
-    for _attempt in range(200):
+    for _attempt in range(300):
         texts = {}
         base = [rand_line(rng, i) for i in range(rng.randint(0, maxlen))]
         prev = base
@@ -87,9 +90,9 @@ def make_texts(rng, hist, nw, maxlen):
                 prev = texts[c]
                 continue
             t = mutate(rng, prev) if rng.random() < 0.85 else [rand_line(rng) for _ in range(rng.randint(0, maxlen))]
-            if c == cur:
-                t = t[:nw]
-                while len(t) < nw:
+            if c in forced:
+                t = t[:forced[c]]
+                while len(t) < forced[c]:
                     t.insert(rng.randint(0, len(t)), rand_line(rng))
             else:
                 t = t[:maxlen]
@@ -171,7 +174,8 @@ def patch_name(i, style):
     return ("2024-03-%02d-1405.%02d" % (i, i)) if style == 0 else "%s.%d" % (NAME, i)
 
 
-def build_scenario(rng, inp, canonical=False, maxlen=6, use_diff=None, inject_mode="wrap"):
+def build_scenario(rng, inp, canonical=False, maxlen=6, use_diff=None, inject_mode="wrap",
+                   texts=None, foreign=None, base=None, style=None):
     """concretize the abstract input record of UpdateFile.tla; returns a JSON-able scenario:
     files (relative path -> bytes) of the repository, local0 bytes or None, texts per id, the
     injection to perform.  `canonical`: plainest possible choices (attributes a failure to structure
@@ -181,9 +185,12 @@ def build_scenario(rng, inp, canonical=False, maxlen=6, use_diff=None, inject_mo
     flav = [f for f in ("SHA1", "SHA256") if f in inp["flav"]]
     n = len(hist) - 1
     cur = hist[-1]
-    texts = make_texts(rng, hist, nw, max(maxlen, nw))
-    foreign = make_foreign(rng, texts, maxlen)
-    style = 0 if canonical else rng.randint(0, 1)
+    if texts is None:
+        texts = make_texts(rng, hist, nw, max(maxlen, nw))
+    if foreign is None:
+        foreign = make_foreign(rng, texts, maxlen)
+    if style is None:
+        style = 0 if canonical else rng.randint(0, 1)
     files = {}
     cur_bytes = "".join(texts[cur]).encode("utf-8")
     files[NAME + ".gz"] = _gz(cur_bytes)
@@ -194,6 +201,9 @@ def build_scenario(rng, inp, canonical=False, maxlen=6, use_diff=None, inject_mo
     scripts = {}
     for i in range(1, n + 1):
         old, new = texts[hist[i - 1]], texts[hist[i]]
+        if base is not None and i < len(base["in"]["hist"]) and base["in"]["hist"][i - 1:i + 1] == hist[i - 1:i + 1]:
+            scripts[i] = base["scripts"][str(i)]       # a published patch does not change any more
+            continue
         sc = None
         if use_diff is not None and rng.random() < 0.5:
             sc = diff_e(use_diff, old, new)
@@ -324,7 +334,8 @@ def build_scenario(rng, inp, canonical=False, maxlen=6, use_diff=None, inject_mo
             inject = {"mode": "wrap", "what": "write", "k": j, "partial": (not canonical) and rng.random() < 0.5}
     return {"in": inp, "files": files, "local0": local0, "foreign": foreign,
             "texts": {str(c): "".join(t) for c, t in texts.items()},
-            "patch_names": {str(i): nm for i, nm in pnames.items()}, "inject": inject, "note": note}
+            "patch_names": {str(i): nm for i, nm in pnames.items()}, "inject": inject, "note": note,
+            "scripts": {str(i): t for i, t in scripts.items()}, "style": style}
 
 
 # ------------------------------------------------------------------ execution
@@ -511,10 +522,11 @@ def _empty(d):
             os.unlink(e.path)
 
 
-def materialize(casedir, sc):
+def materialize(casedir, sc, repo_name="repo", keep_local=False):
     """write the scenario into casedir.  casedir is re-used from case to case by one process (creating
-    and removing directories is slow on this file system): its content is wiped first"""
-    repo = os.path.join(casedir, "repo")
+    and removing directories is slow on this file system): its content is wiped first.  keep_local:
+    a later call of the same behaviour -- the local directory is left as the previous call left it"""
+    repo = os.path.join(casedir, repo_name)
     diffd = os.path.join(repo, NAME + ".diff")
     ldir = os.path.join(casedir, "local")
     tmpd = os.path.join(casedir, "tmp")
@@ -523,7 +535,7 @@ def materialize(casedir, sc):
         _empty(diffd)
         if not want_diffd:
             os.rmdir(diffd)
-    for d in (repo, ldir, tmpd):
+    for d in (repo, tmpd) if keep_local else (repo, ldir, tmpd):
         if os.path.isdir(d):
             for e in os.scandir(d):
                 if e.path != diffd:
@@ -539,9 +551,13 @@ def materialize(casedir, sc):
         with open(os.path.join(repo, rel), "wb") as f:
             f.write(data)
     local = os.path.join(ldir, NAME)
-    if sc["local0"] is not None:
-        with open(local, "wb") as f:
-            f.write(sc["local0"])
+    if not keep_local:
+        other = os.path.join(casedir, "repo2")
+        if os.path.isdir(other):
+            shutil.rmtree(other)
+        if sc["local0"] is not None:
+            with open(local, "wb") as f:
+                f.write(sc["local0"])
     return "file://" + os.path.join(repo, NAME), local, tmpd
 
 
@@ -602,10 +618,10 @@ def _call_rlimited(remote, local, limit):
     return pickle.loads(b"".join(chunks))
 
 
-def execute(casedir, sc, record=True):
+def execute(casedir, sc, record=True, repo_name="repo", keep_local=False):
     """run update_file on the scenario; returns the raw observation"""
     import tempfile
-    remote, local, tmpd = materialize(casedir, sc)
+    remote, local, tmpd = materialize(casedir, sc, repo_name, keep_local)
     inj = sc["inject"]
     old_tmp = tempfile.tempdir
     tempfile.tempdir = tmpd
